@@ -52,8 +52,8 @@ def build_model(ctx):
 
 
 # ------------------------------------------------------------------ input generation (not part of the oracle)
-def conv(w):
-    d = [0, 0, 0, 0]
+def conv(w, d0=(0, 0, 0, 0)):
+    d = list(d0)
     out = []
     for b in w:
         out += [b ^ d[2] ^ d[3], b ^ d[0] ^ d[1] ^ d[3]]
@@ -132,6 +132,32 @@ class Gen:
             meta["payload"] = w[:OUT]
             meta["flips"] = len(pos)
             return v, meta
+        if kind == "burst":
+            # a clean code word with a dense burst of full-confidence sign flips in a short window at the very start,
+            # at the very end or anywhere: far beyond the correction radius, so that the ML path is NOT the sent one -
+            # exercises the start-state penalty, the end-state scan and the traceback on non-trivial survivors
+            w = self.bits(n)
+            c = conv(w)
+            mk = self.mask_for(IN, OUT, "geom" if (IN, OUT) in self.masks and r.chance(1, 2) else "all")
+            win = min(IN, r.range(6, 16))
+            where = r.below(10)
+            start = 0 if where < 5 else (IN - win if where < 8 else r.below(IN - win + 1))
+            k = r.range(max(3, win // 2), win)
+            pos = set(r.shuffle(list(range(start, start + win)))[:k])
+            v = [((L if c[i] else -L) * (-1 if i in pos else 1)) if mk[i] else 0 for i in range(IN)]
+            meta["burst"] = [start, win, k]
+            return v, meta
+        if kind == "offstate":
+            # the code word of an encoder that did NOT start in state 0 (any other of the 16 memories), full confidence:
+            # a path from that state matches perfectly, so only the start-state penalty keeps the decoder on state-0 paths
+            w = self.bits(n)
+            d0 = [0, 0, 0, 0]
+            while d0 == [0, 0, 0, 0]:
+                d0 = [r.below(2) for _ in range(4)]
+            c = conv(w, d0)
+            v = [(L if c[i] else -L) for i in range(IN)]
+            meta["start_memory"] = d0
+            return v, meta
         if kind == "erasures":
             w = self.bits(n)
             mk = self.mask_for(IN, OUT, r.choice(["p1", "p2", "p3", "rand", "rand", "none"]))
@@ -178,7 +204,7 @@ class Gen:
         self.cases.append((f"q {W} " + " ".join(parts), metas))
 
 
-KINDS = ["clean", "clean-weak", "clean-zero-tail", "flips", "flips", "flips-end", "erasures", "noise", "noise", "ties", "ties", "ties2",
+KINDS = ["clean", "clean-weak", "clean-zero-tail", "flips", "flips", "flips-end", "burst", "burst", "offstate", "offstate", "erasures", "noise", "noise", "ties", "ties", "ties2",
          "extremes", "uniform", "allzero"]
 
 
@@ -201,6 +227,14 @@ def gen_cases(ctx, masks, dfree):
     for _ in range(30000 if thorough else 4000):
         IN, OUT = r.choice(GEOMS_SHORT)
         g.add(r.range(2, 6), [(IN, OUT, r.choice(KINDS))])
+    # dense error bursts at the boundaries of the trellis (start-state penalty, end-state scan), every width and geometry
+    for _ in range(40 if thorough else 8):
+        for W in (2, 3, 4, 5, 6):
+            for (IN, OUT) in GEOMS_M17:
+                g.add(W, [(IN, OUT, r.choice(["burst", "offstate"]))])
+    for _ in range(3000 if thorough else 600):
+        IN, OUT = r.choice([x for x in GEOMS_SHORT if x[0] >= 12] or GEOMS_SHORT)
+        g.add(r.range(2, 6), [(IN, OUT, r.choice(["burst", "offstate"]))])
     for (IN, OUT) in GEOMS_EDGE:
         for W in (2, 4, 6):
             for kind in ("ties", "uniform", "clean"):
